@@ -29,7 +29,7 @@ Theorem C20_trie_refines_assoc_list :
   forall ops : list (top tok N),
     map (obs N) (c20_run ops) = srun tok N tok_eq [] ops.
 Proof.
-  exact (fun ops => trie_refines_assoc_list tok N tok_eq tok_less tok_eq_sym tok_eq_trans ops empty []
+  exact (fun ops => trie_refines_assoc_list tok N tok_eq tok_less tok_isph tok_isarg tok_eq_sym tok_eq_trans ops empty []
                       (TR_init tok N tok_eq tok_less)).
 Qed.
 Print Assumptions C20_trie_refines_assoc_list.
@@ -42,7 +42,7 @@ Theorem C20_copy_is_identity :
 Proof. exact (copy_correct tok N tok_eq tok_less tok_eq_sym tok_eq_trans). Qed.
 Print Assumptions C20_copy_is_identity.
 
-Definition state_after := state_after tok N tok_eq tok_less.
+Definition state_after := state_after tok N tok_eq tok_less tok_isph tok_isarg.
 Definition spec_after := spec_after tok N tok_eq.
 
 (* isolation of one fork: for every history h, every inner history (Puts over keys of the
@@ -52,18 +52,18 @@ Definition spec_after := spec_after tok N tok_eq.
 Theorem C20_fork_isolation :
   forall h inner cont : list (top tok N),
     c20_run (h ++ Fork inner :: cont) =
-      c20_run h ++ (ForkBegin :: trun tok_eq tok_less (copy tok_eq tok_less (state_after h)) inner ++ [ForkEnd])
-      ++ trun tok_eq tok_less (state_after h) cont
-    /\ c20_run (h ++ cont) = c20_run h ++ trun tok_eq tok_less (state_after h) cont
-    /\ map (obs N) (trun tok_eq tok_less (copy tok_eq tok_less (state_after h)) inner) = srun tok N tok_eq (spec_after h) inner.
-Proof. exact (fork_isolation tok N tok_eq tok_less tok_eq_sym tok_eq_trans). Qed.
+      c20_run h ++ (ForkBegin :: trun tok_eq tok_less tok_isph tok_isarg (copy tok_eq tok_less (state_after h)) inner ++ [ForkEnd])
+      ++ trun tok_eq tok_less tok_isph tok_isarg (state_after h) cont
+    /\ c20_run (h ++ cont) = c20_run h ++ trun tok_eq tok_less tok_isph tok_isarg (state_after h) cont
+    /\ map (obs N) (trun tok_eq tok_less tok_isph tok_isarg (copy tok_eq tok_less (state_after h)) inner) = srun tok N tok_eq (spec_after h) inner.
+Proof. exact (fork_isolation tok N tok_eq tok_less tok_isph tok_isarg tok_eq_sym tok_eq_trans). Qed.
 Print Assumptions C20_fork_isolation.
 
 (* isolation of any number of forks anywhere in a history: the outputs outside the forks are the
    outputs of the history with every fork erased *)
 Theorem C20_forks_invisible :
   forall ops : list (top tok N), strip_forks 0 (c20_run ops) = c20_run (erase_forks ops).
-Proof. exact (fun ops => forks_invisible tok N tok_eq tok_less ops empty). Qed.
+Proof. exact (fun ops => forks_invisible tok N tok_eq tok_less tok_isph tok_isarg ops empty). Qed.
 Print Assumptions C20_forks_invisible.
 
 (* first half of the property; ops2 may contain any number of forks whose inner histories Put the
@@ -73,8 +73,8 @@ Theorem C20_dup_rejected :
     forallb (fun o => negb (is_put o)) ops2 = true ->
     lookup tok_eq tok_less (state_after ops1) ks = None ->
     eql tok_eq ks ks' = true ->
-    snd (tstep tok_eq tok_less (state_after (ops1 ++ Declare ks v :: ops2)) (Declare ks' v')) = [Rejected v].
-Proof. exact (dup_rejected tok N tok_eq tok_less tok_eq_sym tok_eq_trans). Qed.
+    snd (tstep tok_eq tok_less tok_isph tok_isarg (state_after (ops1 ++ Declare ks v :: ops2)) (Declare ks' v')) = [Rejected v].
+Proof. exact (dup_rejected tok N tok_eq tok_less tok_isph tok_isarg tok_eq_sym tok_eq_trans). Qed.
 Print Assumptions C20_dup_rejected.
 
 (* second half of the property, across forks *)
@@ -84,14 +84,50 @@ Theorem C20_stays_callable :
     lookup tok_eq tok_less (state_after ops1) ks = None ->
     eql tok_eq ks ks' = true ->
     lookup tok_eq tok_less (state_after (ops1 ++ Declare ks v :: ops2)) ks' = Some v.
-Proof. exact (stays_callable tok N tok_eq tok_less tok_eq_sym tok_eq_trans). Qed.
+Proof. exact (stays_callable tok N tok_eq tok_less tok_isph tok_isarg tok_eq_sym tok_eq_trans). Qed.
 Print Assumptions C20_stays_callable.
+
+(* Search with the parser's key generator (a placeholder child accepts any argument token, every
+   other child the equal token; every matching child is explored) refines the association list:
+   after every history it returns - without dereferencing nil - exactly the values bound to the
+   non-empty declared patterns that a prefix of the call instantiates *)
+Theorem C20_search_refines_assoc_list :
+  forall (ops : list (top tok N)) (q : list tok),
+    exists r, search_seq tok_eq tok_less tok_isph tok_isarg q (state_after ops) = Some r /\
+      forall v, In v r <-> exists ks, ks <> [] /\ inst_prefix tok_eq tok_isph tok_isarg ks q = true /\
+                                   slookup tok N tok_eq (spec_after ops) ks = Some v.
+Proof. exact (search_refines_history tok N tok_eq tok_less tok_isph tok_isarg tok_eq_refl tok_eq_sym tok_eq_trans tok_isph_congr). Qed.
+Print Assumptions C20_search_refines_assoc_list.
+
+(* the same for every trie that represents an association list, i.e. also inside forks *)
+Theorem C20_search_refines_assoc_list_any_state :
+  forall (t : trie tok N) (l : list (list tok * N)) (q : list tok),
+    TR tok N tok_eq tok_less t l ->
+    exists r, search_seq tok_eq tok_less tok_isph tok_isarg q t = Some r /\
+      forall v, In v r <-> exists ks, ks <> [] /\ inst_prefix tok_eq tok_isph tok_isarg ks q = true /\
+                                   slookup tok N tok_eq l ks = Some v.
+Proof. exact (search_refines tok N tok_eq tok_less tok_isph tok_isarg tok_eq_refl tok_eq_sym tok_eq_trans tok_isph_congr). Qed.
+Print Assumptions C20_search_refines_assoc_list_any_state.
+
+(* second half of the property as the parser uses the trie: a declared alias is among the aliases
+   Search returns for every call that instantiates its pattern (placeholders replaced by arguments,
+   all other tokens equal, anything may follow), whatever other aliases exist - a sibling with a
+   literal word where this alias has a placeholder does not hide it - and across forks *)
+Theorem C20_callable_by_search :
+  forall ops1 ks v ops2 c rest,
+    forallb (fun o => negb (is_put o)) ops2 = true ->
+    lookup tok_eq tok_less (state_after ops1) ks = None ->
+    ks <> [] ->
+    instantiates tok_eq tok_isph tok_isarg ks c = true ->
+    exists r, search_seq tok_eq tok_less tok_isph tok_isarg (c ++ rest) (state_after (ops1 ++ Declare ks v :: ops2)) = Some r /\ In v r.
+Proof. exact (callable_by_search tok N tok_eq tok_less tok_isph tok_isarg tok_eq_refl tok_eq_sym tok_eq_trans tok_isph_congr). Qed.
+Print Assumptions C20_callable_by_search.
 
 (* why the side condition: Put is the operation that rebinds an existing key *)
 Theorem C20_put_overwrites :
   forall ops ks v ks',
     eql tok_eq ks ks' = true -> lookup tok_eq tok_less (state_after (ops ++ [Put ks v])) ks' = Some v.
-Proof. exact (put_overwrites tok N tok_eq tok_less tok_eq_sym tok_eq_trans). Qed.
+Proof. exact (put_overwrites tok N tok_eq tok_less tok_isph tok_isarg tok_eq_sym tok_eq_trans). Qed.
 Print Assumptions C20_put_overwrites.
 
 (* why the fallback is needed: ordering and equality of the real keys are inconsistent, and the
